@@ -45,7 +45,9 @@ THEOREMS = {
                             "bracket_eq_transaction", "empty_txn_silent", "scoped_close_once", "leave_closed", "runPre_closed"]],
     "C15": [S + n for n in ["addSend_get_other", "sendMany_get", "send_fold", "send_last", "sendAll_get", "send_fold_interleaved", "send_last_interleaved",
                             "sendAll_get_untouched", "sink_fires", "val_stepTxn_csink"]],
-    "C17": ["SodiumVerif.LazyM.thunk_at_most_once", "SodiumVerif.LazyM.run_stable", S + "taken_value", S + "stmt_force"],
+    "C17": ["SodiumVerif.LazyM.thunk_at_most_once", "SodiumVerif.LazyM.run_stable", S + "taken_value", S + "stmt_force"] +
+           ["SodiumVerif.LazyHeap." + n for n in ["Inv_reach", "forceC_spec", "step_spec", "runs_le_one", "value_is_den", "force_returns_den", "force_time_independent",
+                                                  "lookup_runOps", "clones_agree", "force_idempotent", "alloc_preserves_den", "den_stable"]],
     "C18": [S + n for n in ["route_fires", "route_eq_filter_twin", "contains_dup", "reach_resolved", "route_history", "route_silent_without_source",
                             "route_value_is_source_value", "route_delivers", "route_same_key_twins", "route_keys_both", "route_keys_independent"]],
 }
@@ -63,6 +65,6 @@ MODULES = {
     "C13": ["SodiumVerif.Props.C13", "SodiumVerif.Props.Expand"],
     "C14": ["SodiumVerif.Props.C14"],
     "C15": ["SodiumVerif.Props.C15", "SodiumVerif.Props.C02", "SodiumVerif.Props.C04"],
-    "C17": ["SodiumVerif.Props.C17"],
+    "C17": ["SodiumVerif.Props.C17", "SodiumVerif.Props.C17b"],
     "C18": ["SodiumVerif.Props.C18", "SodiumVerif.Props.C18b"],
 }
